@@ -52,9 +52,11 @@ ImTargets == {"same_gpts", "own_sampling", "gpts_smaller", "gpts_larger", "gpts_
 Layouts == {"ss", "oss", "sos", "sso"}                   \* ensemble axes: s = scan axis, o = another ensemble axis
 Sigmas == {"small", "anisotropic", "wider_than_the_scan"}
 (* stack: how many patterns are interpolated in one call (3; 17 x 19 patterns of 32 x 32; 5 x 5 patterns of 128 x 96) - every pattern of a large stack or dask block keeps its intensity too *)
-Init == /\ \/ \E t \in DpTargets, g \in 1..4, z \in BOOLEAN, lz \in BOOLEAN, st \in {"small", "many_patterns", "large_patterns"} :
+(* negative_member: one pattern of the stack has a negative total (a difference of two patterns) - its total is preserved as well *)
+Init == /\ \/ \E t \in DpTargets, g \in 1..4, z \in BOOLEAN, lz \in BOOLEAN, st \in {"small", "many_patterns", "large_patterns"}, ng \in BOOLEAN :
                 /\ (st # "small" => g = 1 /\ t \in {"uniform", "two_samplings", "gpts_smaller"})
-                /\ c = [k |-> "dp", target |-> t, grid |-> g, zero_member |-> z, lazy |-> lz, stack |-> st]
+                /\ (ng => st = "small")
+                /\ c = [k |-> "dp", target |-> t, grid |-> g, zero_member |-> z, lazy |-> lz, stack |-> st, negative_member |-> ng]
            \/ \E t \in ImTargets, g \in 1..4, cx \in BOOLEAN, lz \in BOOLEAN : c = [k |-> "image", target |-> t, grid |-> g, complex |-> cx, lazy |-> lz]
            \/ \E l \in Layouts, s \in Sigmas, r \in 1..3, lz \in BOOLEAN : c = [k |-> "source", layout |-> l, sigma |-> s, limits |-> r, lazy |-> lz]
         /\ done = FALSE
